@@ -23,6 +23,7 @@ pub enum Entry {
     V5Reason,
     SubOpt,
     NonUtf8,
+    Utf8Straddle,
     NameWild,
     RespTopic,
     BadFilter,
@@ -56,6 +57,7 @@ pub const ALL_ENTRIES: &[Entry] = &[
     Entry::V5Reason,
     Entry::SubOpt,
     Entry::NonUtf8,
+    Entry::Utf8Straddle,
     Entry::NameWild,
     Entry::RespTopic,
     Entry::BadFilter,
@@ -91,6 +93,7 @@ impl Entry {
             Entry::V5Reason => "v5reason",
             Entry::SubOpt => "subopt",
             Entry::NonUtf8 => "nonutf8",
+            Entry::Utf8Straddle => "utf8-straddle",
             Entry::NameWild => "namewild",
             Entry::RespTopic => "resptopic",
             Entry::BadFilter => "badfilter",
@@ -509,6 +512,15 @@ pub fn sites(w: &WPacket) -> Vec<Site> {
             _ => {}
         }
     }
+    for (in_will, ps) in [(false, main_props(w)), (true, will_props(w))] {
+        if let Some(ps) = ps {
+            for (i, p) in ps.items.iter().enumerate() {
+                if matches!(p.val, PVal::Pair(..)) {
+                    v.push(Site { entry: Entry::Utf8Straddle, idx: if in_will { 1000 + i } else { i } });
+                }
+            }
+        }
+    }
     if let Some(ps) = main_props(w) {
         v.push(Site { entry: Entry::PropUnknown, idx: 0 });
         v.push(Site { entry: Entry::PropForeign, idx: 0 });
@@ -718,13 +730,33 @@ pub fn apply(orig: &WPacket, site: &Site, t: &mut Tape) -> Option<Mutated> {
             }
             match site.entry {
                 Entry::NonUtf8 => {
-                    if f.is_empty() {
-                        f.push(0xFF);
+                    // several shapes of ill-formed UTF-8 (MQTT 1.5.4: also surrogates and overlong forms)
+                    let shapes: [&[u8]; 8] = [&[0xFF], &[0x80], &[0xC3], &[0xE2, 0x82], &[0xED, 0xA0, 0x80], &[0xC0, 0x80], &[0xF4, 0x90, 0x80, 0x80], &[0xF0, 0x9F, 0x98]];
+                    let k = t.weighted(&[4, 1, 1, 1, 1, 1, 1, 1]);
+                    let shape = shapes[k];
+                    let how = if f.is_empty() || k >= 2 {
+                        // truncated / ill-formed sequence at the end of the string (or spliced at a boundary)
+                        let s = std::str::from_utf8(f).ok()?;
+                        let mut i = if t.flag() { s.len() } else { t.pick(s.len() + 1) };
+                        while !s.is_char_boundary(i) {
+                            i -= 1;
+                        }
+                        if matches!(k, 2 | 3 | 7) {
+                            i = s.len(); // incomplete sequences are only ill-formed at the end or before ASCII
+                        }
+                        for (j, b) in shape.iter().enumerate() {
+                            f.insert(i + j, *b);
+                        }
+                        "inserted"
                     } else {
                         let i = t.pick(f.len());
-                        f[i] = 0xFF;
+                        f[i] = shape[0];
+                        "overwrote a byte"
+                    };
+                    if f.len() > 65_535 || std::str::from_utf8(f).is_ok() {
+                        return None;
                     }
-                    (all(ExpErr::InvalidString), format!("byte 0xFF in {:?}", path))
+                    (all(ExpErr::InvalidString), format!("ill-formed UTF-8 {:02x?} {} in {:?}", shape, how, path))
                 }
                 Entry::NameWild | Entry::RespTopic => {
                     let c = [b'+', b'#', 0u8][t.pick(3)];
@@ -747,6 +779,26 @@ pub fn apply(orig: &WPacket, site: &Site, t: &mut Tape) -> Option<Mutated> {
                     (all(ExpErr::InvalidTopicFilter(s.to_string())), format!("filter {:?} replaced by {:?}", path, s))
                 }
             }
+        }
+        Entry::Utf8Straddle => {
+            // a multi-byte character split across the two strings of a user property: the pair is
+            // well-formed only when read as one buffer
+            let in_will = site.idx >= 1000;
+            let ps = if in_will { will_props_mut(&mut w) } else { main_props_mut(&mut w) }?;
+            let p = ps.items.get_mut(site.idx % 1000)?;
+            if let PVal::Pair(a, b) = &mut p.val {
+                if a.len() + 3 > 65_535 || b.len() + 3 > 65_535 {
+                    return None;
+                }
+                let (head, tail): (&[u8], &[u8]) = [(&[0xE4u8, 0xBD][..], &[0xA0u8][..]), (&[0xC3][..], &[0xA9][..]), (&[0xF0, 0x9F][..], &[0x98, 0x80][..]), (&[0xE2][..], &[0x82, 0xAC][..])][t.pick(4)];
+                a.extend_from_slice(head);
+                let mut nb = tail.to_vec();
+                nb.extend_from_slice(b);
+                *b = nb;
+            } else {
+                return None;
+            }
+            (all(ExpErr::InvalidString), "multi-byte character split across the name and value of a user property".into())
         }
         Entry::PropUnknown => {
             let id = [0x00u8, 0x04, 0x7F, 0x80, 0xFF, 0x2B, 0x0A, 0x14][t.pick(8)];
